@@ -855,6 +855,9 @@ class StubsLib(StubsBase):
                 return v.itemsize
             if name == "fields":
                 return None
+            if name == "newbyteorder":
+                ctx.note("model: dtype tags carry no byte order (non-native byte order is covered by the bounded layer only)")
+                return Stub(lambda c, order="S": v, "dtype.newbyteorder")
             raise PyExc("AttributeError", name)
         if isinstance(v, ExtType):
             at = getattr(v, "attrs", None)
